@@ -15,6 +15,56 @@ from . import tlc, terms
 from .runner import main, Run
 
 
+def scan_part(run, np, n2p, scans, rng):
+    """growth: find_xyz_triples on every layout word of the spec (T = translation rows of a grid in its own frame and scale, R = rotation
+    rows, Z = a row of no grid): marked rows, locations, scales, transforms and transformed matrices"""
+    spec = "CoordSys.ScanLaws"
+    for w, rows, marked in scans:
+        w = list(w)
+        marked = sorted(int(j) - 1 for j in marked)
+        grids = {}
+        M = np.zeros((len(rows), 6))
+        for ri, (k, idx) in enumerate(rows):
+            k, idx = int(k), int(idx)
+            if k not in grids:
+                Q, _ = np.linalg.qr(rng.standard_normal((3, 3)))
+                grids[k] = dict(x=np.round(rng.uniform(-20, 20, 3), 2), G=Q, s=float(rng.choice([1.0, 0.00259, 10.0, 386.1])),
+                                z=rng.standard_normal(6) * (ri % 2))
+            g = grids[k]
+            x, y, z = g["x"]
+            if w[k - 1] == "T":
+                M[ri] = (g["s"] * g["G"] @ np.array([[1, 0, 0, 0, z, -y], [0, 1, 0, -z, 0, x], [0, 0, 1, y, -x, 0.0]]))[idx - 1]
+            elif w[k - 1] == "R":
+                M[ri] = np.hstack((np.zeros(3), g["G"][idx - 1]))
+            else:
+                M[ri] = g["z"]                       # a zero row or an arbitrary row
+        case = {"word": "".join(w), "matrix": M.tolist()}
+        run.case(("scan", "".join(w)), nontrivial="T" in w and len(set(w)) > 1, part="find_xyz_triples (growth)")
+        try:
+            tr = n2p.find_xyz_triples(M.copy(), get_trans=True, mats={"m": M.copy()})
+            got = [int(i) for i in np.nonzero(tr.pv)[0]]
+            if got != marked:
+                run.deviation(spec, "find_xyz_triples marks rows %r, the layout has its translation rows at %r" % (got, marked), case)
+                continue
+            ok = True
+            tks = [k for k in sorted(grids) if w[k - 1] == "T"]
+            for ti_, k in enumerate(tks):
+                g = grids[k]
+                rws = [ri for ri, (kk, _i) in enumerate(rows) if int(kk) == k]
+                x, y, z = g["x"]
+                unit = np.array([[1, 0, 0, 0, z, -y], [0, 1, 0, -z, 0, x], [0, 0, 1, y, -x, 0.0]])
+                ok = ok and np.allclose(tr.coords[rws], g["x"], atol=1e-9 * 20) and np.allclose(tr.scales[rws], g["s"], rtol=1e-12) \
+                    and np.allclose(tr.Ts[ti_], g["G"].T / g["s"], atol=1e-12 / g["s"]) and np.allclose(tr.outmats["m"][rws], unit, atol=1e-9 * 20)
+            rest = [ri for ri in range(len(rows)) if ri not in marked]
+            ok = ok and len(tr.Ts) == len(tks) and np.isnan(tr.coords[rest]).all() and np.isnan(tr.scales[rest]).all() \
+                and np.array_equal(tr.outmats["m"][rest], M[rest])
+            if not ok:
+                run.deviation(spec, "find_xyz_triples: locations / scales / transforms / transformed rows differ from the grids the matrix was made of", case)
+        except Exception as ex:
+            run.deviation(spec, "find_xyz_triples raised %r" % ex, case)
+        run.trace_validated()
+
+
 def body(run: Run, replay):
     import numpy as np
     import pandas as pd
@@ -39,6 +89,9 @@ def body(run: Run, replay):
     gen = {int(k): v for k, v in gen.items()} if isinstance(gen, dict) else {i + 1: v for i, v in enumerate(gen)}
     topos = res.tagged("TOPO")
     um_choices = sorted((tuple(tuple(b_) for b_ in m_), tuple(tuple(b_) for b_ in r_)) for m_, r_ in (res.tagged("UM")[0][0] if res.tagged("UM") else []))
+    if res.tagged("SCAN"):
+        scan_part(run, np, n2p, sorted((tuple(w_), tuple(tuple(r_) for r_ in rows_), tuple(sorted(m_))) for w_, rows_, m_ in res.tagged("SCAN")[0][0]),
+                  np.random.default_rng(run.seed + 77))
     rng = np.random.default_rng(run.seed + 14)
     K = 3
 
